@@ -65,6 +65,29 @@ def strategy(draw):
                 perm=draw(st.permutations(list(range(naz)))))
 
 
+BIG = {"quick": 12, "thorough": 96}
+
+
+@st.composite
+def strategy_big(draw):
+    """Deployment-scale azimuthal results: 2-180 azimuths x up to 9 000 windows (azimuths x windows^2 between 1e6 and
+    4e8, at most 140 000 windows in total), accepted counts that differ by a handful of windows between azimuths."""
+    case = draw(strategy())
+    naz = draw(st.sampled_from([2, 2, 3, 6, 10, 36, 90, 180]))
+    target = 10.0 ** draw(st.sampled_from([6.0, 6.5, 7.0, 7.5, 8.0, 8.2, 8.4, 8.6]))
+    nwin = int(max(8, min(math.sqrt(target / naz), 140_000 // naz, 9000)))
+    f0 = case["f"][0]
+    case["f"] = [float(v) for v in np.geomspace(f0, f0 * 60.0, 20)]
+    proto = case["groups"][0]
+    case["groups"] = [dict(proto, nwin=nwin, seed=(proto["seed"] + 101 * j) % 2 ** 32, centre=0.35 + 0.3 * ((j * 7) % naz) / naz) for j in range(naz)]
+    case["azimuths"] = [float(v) for v in np.linspace(0.0, 180.0, naz, endpoint=False)]
+    case["perm"] = list(range(naz))
+    case["states"] = [dict(how="reject-few", az=draw(st.integers(0, naz - 1)), count=draw(st.sampled_from([1, 1, 2, 5, 40])), seed=draw(gen.seeds32))
+                      for _ in range(draw(st.sampled_from([1, 2])))]
+    case["big"] = True
+    return case
+
+
 def _flat(masks, arrays):
     return np.concatenate([np.asarray(a)[np.asarray(m, dtype=bool)] for a, m in zip(arrays, masks)])
 
@@ -204,6 +227,11 @@ def check_case(case):
                     if not close(got[key], tv, rtol=1e-10, atol=1e-12):
                         raise Violation(f"{step}: equal accepted counts {counts}: {key} ({dist}) differs from the unweighted statistic of the pooled windows (rel diff {rel_err(got[key], tv):.3g})")
                 labels.append("equal-count-reduction")
+        if case.get("big"):
+            if naz >= 2 and len(set(counts)) > 1:
+                labels.append("unequal")
+                nontrivial = True
+            return
         # permuting azimuths changes nothing
         p = list(case["perm"])
         hp = build([groups_A[j] for j in p], [azs[j] for j in p])
@@ -237,9 +265,18 @@ def check_case(case):
             if max(per) - min(per) > 1e-3:
                 nontrivial = True
 
-    verify("initial state (all accepted)")
+    if case.get("big"):
+        labels.append("big-naz*nwin^2=1e%d" % int(math.log10(naz * len(groups_A[0]) ** 2)))
+    else:
+        verify("initial state (all accepted)")
     for k, stt in enumerate(case["states"], start=1):
-        if stt["how"] == "masks":
+        if stt["how"] == "reject-few":
+            t = h.hvsrs[stt["az"]]
+            ok = np.flatnonzero(t.valid_window_boolean_mask)
+            drop = np.random.Generator(np.random.PCG64(stt["seed"])).choice(ok, size=min(stt["count"], len(ok) - 1), replace=False)
+            t.valid_window_boolean_mask[drop] = False
+            t.valid_peak_boolean_mask[drop] = False
+        elif stt["how"] == "masks":
             for t, m in zip(h.hvsrs, stt["masks"]):
                 t.valid_window_boolean_mask = np.array(m, dtype=bool)
                 t.valid_peak_boolean_mask = np.array(m, dtype=bool)
